@@ -132,6 +132,11 @@ func goalDelivered(r *rig) bool { return r.c03Goal() == "" }
 
 // ---------------------------------------------------------------- C08
 
+func deleteDelay(c rigConf, d time.Duration) rigConf {
+	c.DeleteDelay = d
+	return c
+}
+
 func damageFirst(c rigConf) rigConf {
 	c.DamageFirst = true
 	return c
@@ -525,6 +530,7 @@ func TestC02Env(t *testing.T) {
 		esc("2 files, 1 thread, keep, daemon", asDaemon(confKeep()), withFiles(confKeep(), "rewrite")),
 		esc("2 files, 1 thread, delete, daemon", asDaemon(confOneThread()), withFiles(confOneThread(), "rewrite", "append")),
 		esc("2 files, 1 thread, delete, daemon, min-age 60 s (a changed file is not picked up by the very next scan)", minAge(asDaemon(confOneThread()), 60*time.Second), withFiles(confOneThread(), "rewrite", "append")),
+		{"2 files, 1 thread, delete with delete-delay 10 min, daemon (confirmed files stay on disk until a later scan removes them; one deviation)", deleteDelay(asDaemon(confOneThread()), 10*time.Minute), withFiles(confOneThread(), "rewrite", "append"), 1},
 		esc("2 files, delete, receiver holds an older version known only from its log", confOneThread(), func(r *rig) {
 			armC02(r)
 			c02Big = false
@@ -540,6 +546,9 @@ func TestC02Env(t *testing.T) {
 	}
 	for i := range scs {
 		scs[i].conf.Horizon = 10 * time.Minute
+		if scs[i].conf.DeleteDelay > 0 {
+			scs[i].conf.Horizon = 25 * time.Minute
+		}
 	}
 	runEnvProperty(t, "C02", "release of source files (E-ENV)", scs, d,
 		func(ev vh.EnvEvent, plan []vh.Deviation) []string {
@@ -578,7 +587,7 @@ func TestC02Env(t *testing.T) {
 			}
 			return append(out, pick(ev.Menu, "file:")...)
 		}, c02Check,
-		"at every Store.Remove and Cache.Done of the sender: the receiver durably holds a validated copy with the hash of the bytes being released, and a positive poll answer asked after the last acknowledgement precedes the release; plans with <= 2 deviations over: poll request refused / answer lost, a corrupted part (validation failure), lost data answer, sender crash at data / poll / done / delete / cache-write / sent-log actions, receiver restart, the source file rewritten (same size) or appended to at any sender action except at the very instant of the unlink, followed by a slow (45 s) comparison of a file with its cache entry; delete on and off, one-shot and daemon, with and without a minimum age of 60 s; a receiver that delivered an older version of the same name in an earlier run")
+		"at every Store.Remove and Cache.Done of the sender: the receiver durably holds a validated copy with the hash of the bytes being released, and a positive poll answer asked after the last acknowledgement precedes the release; plans with <= 2 deviations over: poll request refused / answer lost, a corrupted part (validation failure), lost data answer, sender crash at data / poll / done / delete / cache-write / sent-log actions, receiver restart, the source file rewritten (same size) or appended to at any sender action except at the very instant of the unlink, followed by a slow (45 s) comparison of a file with its cache entry; delete on and off, one-shot and daemon, with and without a minimum age of 60 s, with a delete-delay of 10 min; a receiver that delivered an older version of the same name in an earlier run")
 }
 
 // c16Drained: everything the scans found was transmitted completely and polled to a verdict;
